@@ -80,6 +80,7 @@ class Ctx:
         self.assumptions = []
         self.exhaustive = None
         self.extra = {}
+        self.skipped_cases = []
 
     # ---------------------------------------------------------------- stage A
     def model_check(self, module, cfg, what=None, expect_violation=None, **kw):
@@ -171,6 +172,8 @@ class Ctx:
             self.events_judged += done[0].get("judged", nev)
             self.events_skipped += done[0].get("skipped", 0)
             for x in r.records:
+                if x.get("k") == "SKIP":
+                    self.skipped_cases.append(x["case"])
                 if x.get("k") == "MISMATCH":
                     c = byid[x["case"]]
                     key = "%s/%s/%s" % (x["op"], x["clause"], x["cls"])
@@ -242,6 +245,7 @@ class Ctx:
                         "distinct_nontrivial = distinct (input family, operation kind) pairs judged",
                 "events_skipped_by_precondition": self.events_skipped,
                 "families": self.families,
+                "cases_outside_precondition": self.skipped_cases[:40],
                 "model_runs": self.mc_runs,
                 "known_findings_seen": sorted(seen_known),
                 "fixed_findings_listed": sorted(e["key"] for e in known if e.get("status") == "fixed"),
